@@ -3,6 +3,7 @@ from gosym.driver import Harness
 
 COMMON_ASSUME = [
     'gosym engine: SSA interpreter + models of section 4 of DESIGN.md are the trusted base; a counterexample is only reported after it reproduced on the real build',
+    'every string / byte slice the program takes the length of is shorter than 2^48 bytes',
 ]
 
 def c14(tier):
@@ -10,6 +11,9 @@ def c14(tier):
         Harness('VHarnessDecodeAny', 'cashu', ['cashu/zz_verif_cashu.go'], models=('std', 'crypto', 'json'), panic_mode='obligation',
                 bounds='token = arbitrary string of any length; JSON/CBOR payload = havoc value of the static type with lists <= 2',
                 must_reach=('decoded', 'rejected')),
+        Harness('VHarnessTokenRoundTrip', 'cashu', ['cashu/zz_verif_cashu.go'], models=('std', 'crypto', 'json'), panic_mode='obligation',
+                bounds='0..2 proofs with arbitrary amount / secret / witness / mint URL strings, id / C / e / s / r = hex of arbitrary byte strings (any length, also empty), DLEQ present or absent per proof, includeDLEQ both ways, V3 and V4',
+                must_reach=('round-trip', 'not-built')),
     ]
 
 def c02(tier):
@@ -114,7 +118,7 @@ P2PK_ASSUME = COMMON_ASSUME + [
     'nut10 (de)serialisation summarised as an injective constructor (DESIGN.md 4.6)']
 
 def c04(tier):
-    return [mint_h('VHarnessVerifyProofs', '1 proof: genuine (keyset / denomination symbolic) / arbitrary / 6 single-field mutation classes of a genuine proof; 2 keysets x 3 denominations', must_reach=('genuine', 'mutated'))]
+    return [mint_h('VHarnessVerifyProofs', '1 proof: genuine (keyset / denomination symbolic) / arbitrary / 7 single-field mutation classes of a genuine proof (amount, keyset id, C of another proof, other C, parity bit of C, secret, oversize secret); 2 keysets x 3 denominations', must_reach=('genuine', 'mutated'))]
 def c09(tier):
     F = ['crypto/zz_verif_bdhke.go', 'crypto/zz_verif_derive.go']
     return [mint_h('VHarnessSignAndFees', '1 arbitrary output against 2 keysets; fee of 0..3 inputs over both keysets, ppk < 2^32', must_reach=('signed', 'refused')),
